@@ -708,3 +708,22 @@ macro_rules! vharness {
         }
     };
 }
+
+/// Harness declaration for *shadow* crates: a `#[kani::proof]` under Kani; natively an
+/// unmangled function that the generated `src/bin/verif_replay.rs` of the shadow calls to replay
+/// a recorded input (the shadow's own `cfg(test)` modules need dev-dependencies that are not
+/// available there, so `cargo test` cannot be used).
+#[macro_export]
+macro_rules! sharness {
+    ($name:ident, $unwind:expr, $body:block) => {
+        #[cfg_attr(kani, kani::proof)]
+        #[cfg_attr(kani, kani::unwind($unwind))]
+        #[cfg_attr(not(kani), no_mangle)]
+        pub fn $name() {
+            if !$crate::sym::replay_begin() {
+                return;
+            }
+            $body
+        }
+    };
+}
